@@ -1,12 +1,18 @@
 #!/bin/bash
 # Run once after a fresh restore, offline: warms the Go build cache for the
-# harness (plain and race) so that the first check does not pay for it.
+# harness (plain and race variants) for every check registered in MANIFEST.json,
+# so that the first check does not pay for compiling /repo and its dependencies.
 export GOFLAGS=-mod=mod GOPROXY=off GOSUMDB=off GOTOOLCHAIN=local
-cd "$(dirname "$0")/harness" || exit 1
-cp -n /repo/go.sum go.sum 2>/dev/null
+ROOT=$(cd "$(dirname "$0")" && pwd)
+cd "$ROOT/harness" || exit 1
 go build -tags "test verif" -o /dev/null ./lib/... || exit 1
-for d in cmd/*/; do
-  go build -tags "test verif" -o /dev/null "./$d" || exit 1
+ids=$(jq -r '.checks[].property_id' "$ROOT/MANIFEST.json" | tr 'A-Z' 'a-z')
+first=""
+for id in $ids; do
+  [ -d "cmd/$id" ] || { echo "missing cmd/$id"; exit 1; }
+  go build -tags "test verif" -o /dev/null "./cmd/$id" || exit 1
+  [ -z "$first" ] && first=$id
 done
-go build -race -tags "test verif" -o /dev/null ./cmd/c01 || exit 1
+# race runtime + instrumented dependencies (shared by all race-variant children)
+[ -n "$first" ] && { go build -race -tags "test verif" -o /dev/null "./cmd/$first" || exit 1; }
 echo setup ok
